@@ -59,6 +59,9 @@ type spec struct {
 	pre    bool   // ... domain.withPrecompute
 	card   int64  // ... domain.Cardinality
 	width  int
+	rounds bool // slpperm.go: NbFullRounds / NbPartialRounds are the translation-time constants rf / rp
+	rf, rp int
+	rowLen int // slpperm.go: length of the round-key row `RoundKeys[round]` when it differs from the width (0 = width)
 	ints   map[int]int64
 	opaque map[int]bool
 	bools  map[int]bool
@@ -81,6 +84,12 @@ func (sp *spec) suffix(f *fn) string {
 		switch {
 		case q.spec && sp.width > 0:
 			parts = append(parts, fmt.Sprintf("t%d", sp.width))
+			if sp.rounds {
+				parts = append(parts, fmt.Sprintf("rf%d", sp.rf), fmt.Sprintf("rp%d", sp.rp))
+			}
+			if sp.rowLen > 0 {
+				parts = append(parts, fmt.Sprintf("k%d", sp.rowLen))
+			}
 		case q.isBool:
 			parts = append(parts, fmt.Sprint(sp.bools[i]))
 		case q.isInt:
@@ -279,9 +288,20 @@ func (x *tr) evalInt(s *state, e ast.Expr) (int64, bool) {
 		if h := x.specRecvName(); h != "" && x.v.spec != nil && x.v.spec.width > 0 && exprStr(e) == h+".params.Width" {
 			return int64(x.v.spec.width), true
 		}
+		if h := x.specRecvName(); h != "" && x.v.spec != nil && x.v.spec.rounds {
+			switch exprStr(e) {
+			case h + ".params.NbFullRounds":
+				return int64(x.v.spec.rf), true
+			case h + ".params.NbPartialRounds":
+				return int64(x.v.spec.rp), true
+			}
+		}
 	case *ast.CallExpr:
 		if id, ok := e.Fun.(*ast.Ident); ok && id.Name == "len" && len(e.Args) == 1 && s.cells["len"] == nil {
 			if ix, ok := e.Args[0].(*ast.IndexExpr); ok && x.isRoundKeys(ix.X) && x.v.spec != nil && x.v.spec.width > 0 {
+				if x.v.spec.rowLen > 0 {
+					return int64(x.v.spec.rowLen), true
+				}
 				return int64(x.v.spec.width), true
 			}
 			n := int64(-1)
@@ -317,6 +337,10 @@ func (x *tr) staticCond(s *state, e ast.Expr) (bool, bool) {
 		if e.Op == token.NOT {
 			b, ok := x.staticCond(s, e.X)
 			return !b, ok
+		}
+	case *ast.SelectorExpr:
+		if b, ok := x.fastFlag(e); ok {
+			return b, true
 		}
 	case *ast.BinaryExpr:
 		switch e.Op {
@@ -391,6 +415,9 @@ func (x *tr) extLoc(s *state, e ast.Expr) (loc, bool) {
 				reject("RoundKeys indexed by a known round")
 			}
 			t := x.p.arrType(x.v.spec.width, baseT)
+			if x.v.spec.rowLen > 0 {
+				t = x.p.arrType(x.v.spec.rowLen, baseT)
+			}
 			if _, ok := s.cells["spec:roundKey"]; !ok {
 				s.cells["spec:roundKey"] = &val{t: t, term: "roundKey"}
 				x.gp["spec:roundKey"] = true
@@ -1060,6 +1087,7 @@ var p2Targets = []string{"sBox", "matMulM4InPlace", "matMulExternalInPlace", "ma
 type extSummary struct {
 	Translated   []string          `json:"translated"`
 	Untranslated map[string]string `json:"untranslated"`
+	Permutation  *permInfo         `json:"permutation,omitempty"` // slpperm.go
 }
 
 func identityPat(f *fn) []int {
@@ -1152,6 +1180,9 @@ func runExt(want map[string]bool) (all, failures []string) {
 					record(ps, label, v.name, v)
 				}
 			}
+		}
+		if cfg.widths != nil {
+			ps.Permutation = p.translatePermutations(cfg, func(key string, v *variant) { record(ps, label, key, v) })
 		}
 		p.emit()
 		sums["Hash"][cfg.name] = ps
